@@ -40,17 +40,12 @@ Result: **all {n} are caught (exit 1 with a concrete failing input as the replay
 property they target**; the two exceptions are `C11-r5m2` (a coordinator spin that needs a Ctrl-C: interrupts are outside
 C11's quantifier and the change is caught by C14, which owns them) and `C08-r6m1` (a failed *save* of a re-execution keeps
 the old, now corrupt entry: caught by C12 and C13, which own failed overwrites; C08's histories have failing executions only).
-Round 6 (feature interactions, the last hour of the budget) left **two changes open** - they are kept, with their
-demonstrations, under `notes/open_mutations/` and are NOT part of the {n}: `C08-m2` (`run_task(bust_cache=True)` rewritten as
-uncache-then-run, so cached dependencies are not re-executed: the history alphabet has no singular `run_task`) and `C10-m2`
-(`ProcessRunner.close()` waits for running workers and thereby starts queued tasks after a fail-fast failure: under the
-fake-process layer nobody releases those workers, the run hangs in `close()`; a per-call watchdog now turns that into a
-`HANG` status, but the check against this change was not re-run to completion in the time left). {missed} were *missed* at first by the targeted
-check; each miss led to a strengthening of the machinery (never to a loosened check), named in the last column and
-summarised below the table.
-
-| seeded change | files | what it is (first line of the author's notes) | outcome |
-|---|---|---|---|
+Round 6 (feature interactions, the last hours of the budget) left **one change open** - it is kept, with its demonstration,
+under `notes/open_mutations/` and is NOT part of the {n}: `C08-m2` (`run_task(bust_cache=True)` rewritten as uncache-then-run, so
+cached dependencies are not re-executed: the history alphabet of C08 has no singular `run_task`). `C10-r6m2`
+(`ProcessRunner.close()` waits for running workers and thereby starts queued tasks after a fail-fast failure) first hung the
+exploration workers - under the fake-process layer nobody releases those workers - and is caught since a per-call watchdog
+reports the hang per case.
 '''
 for r in rows:
     sec += '| %s | %s | %s | %s |\n' % tuple(x.replace('|', '/') for x in r)
